@@ -5,11 +5,11 @@ KEEP = ['parseFloatingFast', 'ParseFloatingNormalFast', 'parseFloatEiselLemire64
 SRC = 'harness/c_parse.cpp'
 
 
-def jobs(pid, mode, tier, defines=(), want=('free', 'ws', 'str', 'nest', 'wide'), nmax=None):
+def jobs(pid, mode, tier, defines=(), want=('free', 'ws', 'str', 'nest', 'wide'), nmax=None, config='haswell', tagx=''):
     J = []
-    tag = pid + ('.simple' if 'ALLOC_SIMPLE' in defines else '')
+    tag = pid + ('.simple' if 'ALLOC_SIMPLE' in defines else '') + tagx
     def add(name, params, bound, nproc=1, **kw):
-        J.append(Job('%s.%s' % (tag, name), SRC, '@h_parse', [mode] + params, defines=defines, keep=KEEP, stubs='stubs_number', nproc=nproc,
+        J.append(Job('%s.%s' % (tag, name), SRC, '@h_parse', [mode] + params, defines=defines, config=config, keep=KEEP, stubs='stubs_number', nproc=nproc,
                      bound=bound, **kw))
     q = (tier == 'quick')
     N = nmax if nmax is not None else (5 if q else 7)
